@@ -1,7 +1,7 @@
 SPECIFICATION Spec
 CONSTANTS
   Sids = {1,2}
-  Threads = {1,2}
+  Threads = {1,2,3}
   Deadlines = {1,2}
   MaxNow = 2
   MaxSaves = 2
